@@ -349,6 +349,21 @@ func checkTAExclusive(e *executor, r *stepResult) *vfkit.Violation {
 				return viol(P, "exclusive CPUs occur in no other container's allowed CPUs", sig,
 					"after %s: CPUs %s exclusive to %s are in the cpuset %q the runtime has for %s", r.Desc, x, a, c.Res.Cpus, c.ID)
 			}
+			// a decision that has not been delivered yet (left pending by a failed request)
+			// is still the plugin's decision: the next reply that carries updates sends it
+			cc, ok := e.h.m.cache.LookupContainer(c.ID)
+			if !ok || sameSet(cc.GetCpusetCpus(), c.Res.Cpus) {
+				continue
+			}
+			if x := excl[a].Intersect(set(cc.GetCpusetCpus())); !x.Empty() {
+				g, has := v.grants[c.ID]
+				if !has || (g.CPUType == "normal" && set(g.Exclusive).Empty() && set(v.pools[g.Pool].FreeSharable).Empty()) ||
+					(e.rejectedReconfigs > 0 && !v.pinningMatchesGrant(e, c)) {
+					continue // (the listed findings above, reported from the runtime's view once delivered)
+				}
+				return viol(P, "exclusive CPUs occur in no other container's allowed CPUs", "exclusive-in-other-containers-undelivered-cpuset",
+					"after %s: CPUs %s exclusive to %s are in the cpuset %q the cache holds (undelivered) for %s", r.Desc, x, a, cc.GetCpusetCpus(), c.ID)
+			}
 		}
 		for _, p := range v.snap.Pools {
 			if x := excl[a].Intersect(set(p.FreeSharable)); !x.Empty() {
